@@ -278,8 +278,17 @@ func (c *client) SendBatch(ctx context.Context, batch []hrpc.Call) (
 	backoff := backoffStart
 
 	for {
-		rpcByClient, ok := c.findClients(ctx, batch, res)
+		// findClients reports errors by position in the batch it's
+		// given. After the first round that's a batch of retries, so
+		// translate positions back to those of the original batch.
+		lookupRes := make([]hrpc.RPCResult, len(batch))
+		rpcByClient, ok := c.findClients(ctx, batch, lookupRes)
 		if !ok {
+			for i, rpc := range batch {
+				if lookupRes[i].Error != nil {
+					res[rpcToRes[rpc]] = lookupRes[i]
+				}
+			}
 			return res, false
 		}
 		sendBatchSplitCount.Observe(float64(len(rpcByClient)))
